@@ -18,7 +18,7 @@ func init() {
 			"and within 0.9*FailedUpdateTTL of a failed build no builder invocation for the key, errors served are the cached one; (b) sequential scripts of 6 Gets with the failing invocation at every position x FailedUpdateTTL {default,1h,-1} " +
 			"x entry state, judged against a small executable model (exact build count and result of every Get); (c) failure-cache entry expiry bracket [tb+0.95T, ta+1.05T] and rebuild after Errors.ExpireAll; " +
 			"distinct_nontrivial = distinct (config, schedule signature) of family-(a) runs with >=2 overlapping Gets on one key plus distinct family-(b) cells",
-		Required:    []string{"a.runs", "a.success_then_quiet.checked", "a.bursts.one_build", "a.suppression.checked", "b.sequences", "b.reexpire_sequences", "b.past_update_ttl_sequences", "b.gets", "c.expiry.checked", "c.rebuild_after_elapse.checked", "api.Failover", "api.FailoverOf"},
+		Required:    []string{"a.runs", "a.success_then_quiet.checked", "a.bursts.one_build", "a.suppression.checked", "b.sequences", "b.reexpire_sequences", "b.past_update_ttl_sequences", "b.default_backend_sequences", "b.gets", "c.expiry.checked", "c.rebuild_after_elapse.checked", "api.Failover", "api.FailoverOf"},
 		Assumptions: []string{"suppression window is judged only for events whose monotonic timestamps lie within 0.9*FailedUpdateTTL of the failure (sound under load)", "without SyncRead redundant sequential builds are documented behaviour and only counted"},
 		Timeout:     func(string) time.Duration { return 45 * time.Minute },
 	})
@@ -32,7 +32,9 @@ func runC05(b *Batch) {
 		}
 		rng := rand.New(rand.NewSource(b.CaseSeed(i)))
 		if i%4 == 3 {
-			if i%16 == 15 {
+			if i%64 == 31 {
+				c05DefaultBackend(b, i)
+			} else if i%16 == 15 {
 				c05PastUpdateTTL(b, i, rng)
 			} else if i%8 == 7 {
 				c05Reexpire(b, i, rng)
